@@ -26,8 +26,10 @@ def sh(cmd, cwd=None, env=None, timeout=1800):
 def main():
     prop, i = sys.argv[1], sys.argv[2]
     run_tests = "--no-tests" not in sys.argv
-    src = f"/tmp/wt/{prop}/seed_out/{i}"
-    sid = f"{prop}-{i}"
+    root = next((a.split("=", 1)[1] for a in sys.argv if a.startswith("--root=")), "/tmp/wt")
+    tag = next((a.split("=", 1)[1] for a in sys.argv if a.startswith("--tag=")), "")
+    src = f"{root}/{prop}/seed_out/{i}"
+    sid = f"{prop}-{tag}{i}"
     dst = f"/verif/seeded/{sid}"
     wt = f"/tmp/vs/{sid}"
     os.makedirs("/tmp/vs", exist_ok=True)
@@ -41,7 +43,7 @@ def main():
         demo = os.path.join(src, "demo.py")
         patch = os.path.join(src, "patch.diff")
         # demo refers to its own worktree path; rewrite to the verification worktree
-        text = open(demo).read().replace(f"/tmp/wt/{prop}", wt)
+        text = open(demo).read().replace(f"{root}/{prop}", wt)
         os.makedirs(os.path.join(wt, "seed_out", i), exist_ok=True)
         vdemo = os.path.join(wt, "seed_out", i, "demo.py")
         open(vdemo, "w").write(text)
